@@ -768,3 +768,4 @@ def run(chk, facts, tier, only=None):
         import c18
         chk.include(c17, "C17.R3", "C19.R6", facts)     # every referenced definition is chased, listed once and declared before use (JS/TS)
         chk.include(c18, "C18.R4", "C19.R7", facts)     # the Rust generator lists and prints the nominalised environment only
+        chk.include(c18, "C18.R5", "C19.R8", facts)     # ... and pp_ty's unreachable arms are unreachable (everything below an init arg / field gets a name)
